@@ -486,6 +486,7 @@ func runC02(r *Run) {
 				})
 			}
 			checkPairing(r, h, entry, fl)
+			checkNarrowing(r, h, fl)
 			g := &signGuard{p: p, src: srcFor, free: free, memo: map[string]int{}}
 			m := &MustPass{P: p, Scope: samePkgScope(entry), Guard: g, IsSink: func(fn *ssa.Function, ins ssa.Instruction) bool { return fl.sinks[ins] }}
 			exposed := m.Exposed(entry)
@@ -838,6 +839,20 @@ func checkFloorIn(r *Run, vs map[*ssa.Function][]int, rule string, roots []strin
 						continue
 					}
 					n++
+					// a share obtained by dividing by the size of a collection is paid once per element of that same collection
+					if a, at := lenDivisorOf(c.Args[i]); a != nil {
+						ranges := loopRangesOf(ins)
+						same := false
+						for _, b := range ranges {
+							if resolveLoad(a) == resolveLoad(b) || samePath(a, b) {
+								same = true
+							}
+						}
+						if len(ranges) > 0 {
+							r.Check(same, rule, fname(fn), "share credited by "+fname(sc)+": the divisor is the size of the collection the pay-out loop ranges over", "x / len(L) credited for each element of L",
+								"the share is computed by dividing by the size of one collection ("+p.ipos(at)+") but credited once per element of another: the shares add up to more (or less) than the amount being split", p.ipos(ins))
+						}
+					}
 					r.Check(fl.up == "", rule, fname(fn), "share credited by "+fname(sc)+" is rounded down", "quotient of an integer division, nothing added afterwards",
 						"the credited share passes through "+fl.up+": the shares can add up to more than the amount being split", p.ipos(ins))
 				}
@@ -975,4 +990,119 @@ func checkValueErrors(r *Run, vs map[*ssa.Function][]int) {
 	if n < 40 {
 		fail("C02.errcheck: only %d value-storing calls with an error result in run functions (expected >= 50)", n)
 	}
+}
+
+// lenDivisorOf: if the amount passes through a division whose divisor is len(A) (possibly converted), A and the division.
+func lenDivisorOf(v ssa.Value) (ssa.Value, ssa.Instruction) {
+	var res ssa.Value
+	var at ssa.Instruction
+	derivesFrom(v, func(y ssa.Value) bool {
+		c, ok := y.(*ssa.Call)
+		if !ok || res != nil {
+			return false
+		}
+		n := calleeName(c)
+		var div ssa.Value
+		switch {
+		case n == "(data/balance.Coin).Divide" || n == "(data/balance.Coin).DivideInt64":
+			div = c.Call.Args[1]
+		case n == "(*math/big.Int).Div" || n == "(*math/big.Int).Quo":
+			div = c.Call.Args[2]
+		default:
+			return false
+		}
+		derivesFrom(div, func(z ssa.Value) bool {
+			if lc, ok := z.(*ssa.Call); ok && calleeName(lc) == "builtin:len" && res == nil {
+				res, at = lc.Call.Args[0], c
+				return true
+			}
+			return false
+		})
+		return false
+	})
+	return res, at
+}
+
+// loopRangesOf: the collections whose length bounds the loops that contain ins (for ... range L / for i < len(L)).
+func loopRangesOf(ins ssa.Instruction) []ssa.Value {
+	b := ins.Block()
+	var res []ssa.Value
+	// blocks of the loops containing b: those that reach b and are reached from b
+	fwd := reachFrom(b, nil)
+	inLoop := map[*ssa.BasicBlock]bool{}
+	for x := range fwd {
+		if reachFrom(x, nil)[b] {
+			inLoop[x] = true
+		}
+	}
+	for x := range inLoop {
+		iff := blockIf(x)
+		if iff == nil {
+			continue
+		}
+		bo, ok := iff.Cond.(*ssa.BinOp)
+		if !ok || bo.Op != token.LSS {
+			continue
+		}
+		if lc, ok := bo.Y.(*ssa.Call); ok && calleeName(lc) == "builtin:len" {
+			res = append(res, lc.Call.Args[0])
+		}
+	}
+	return res
+}
+
+// checkNarrowing: on its way from the message to a value-storing call an amount is never squeezed through a 64-bit integer
+// (big.Int.Int64 / Uint64): the truncated value would be moved while the full value is recorded elsewhere.
+func checkNarrowing(r *Run, h *Handler, fl *c02Flow) {
+	p := r.P
+	var sinks []ssa.Instruction
+	for ins := range fl.sinks {
+		sinks = append(sinks, ins)
+	}
+	sort.Slice(sinks, func(i, j int) bool { return sinks[i].Pos() < sinks[j].Pos() })
+	bad := ""
+	var at ssa.Instruction
+	var scan func(v ssa.Value, depth int, seen map[*ssa.Function]bool)
+	scan = func(v ssa.Value, depth int, seen map[*ssa.Function]bool) {
+		derivesFrom(v, func(y ssa.Value) bool {
+			c, ok := y.(*ssa.Call)
+			if !ok {
+				return false
+			}
+			switch calleeName(c) {
+			case "(*math/big.Int).Int64", "(*math/big.Int).Uint64":
+				if bad == "" {
+					bad = calleeName(c) + " at " + p.ipos(c)
+				}
+			}
+			if sc := c.Call.StaticCallee(); sc != nil && inRepo(sc) && sc.Blocks != nil && depth < 3 && !seen[sc] {
+				seen[sc] = true
+				for _, ret := range returnsOf(sc) {
+					for _, res := range ret.Results {
+						if amountish(res.Type()) {
+							scan(res, depth+1, seen)
+						}
+					}
+				}
+			}
+			return false
+		})
+	}
+	for _, ins := range sinks {
+		c := ins.(ssa.CallInstruction).Common()
+		for _, a := range c.Args {
+			if amountish(a.Type()) && bad == "" {
+				scan(a, 0, map[*ssa.Function]bool{})
+				if bad != "" {
+					at = ins
+				}
+			}
+		}
+	}
+	pos := ""
+	if at != nil {
+		pos = p.ipos(at)
+	}
+	r.Check(bad == "", "C02.narrow", h.Name, "msg."+fl.field+" keeps arbitrary precision on its way to the data layer", "no big.Int.Int64 / Uint64 between the message amount and a value-storing call",
+		"the amount moved is msg."+fl.field+" truncated to 64 bits ("+bad+") while other records of the same transaction take the full value: a value of 2^64+1 moves 1 and records 2^64+1", pos)
 }
